@@ -43,8 +43,30 @@ def line(c, with_mode=None):
 def make_ca(c):
     a = np.array(c["hist"], dtype=np.int64)
     if c.get("scale", 1) != 1:
-        return (a.astype(np.float64) / c["scale"]).astype(c["dtype"])
-    return a.astype(c["dtype"])
+        a = (a.astype(np.float64) / c["scale"]).astype(c["dtype"])
+    else:
+        a = a.astype(c["dtype"])
+    return with_layout(a, c.get("layout"))
+
+
+def with_layout(a, layout):
+    """The same values in another memory layout (what a caller may legitimately hand over):
+    F = Fortran order; rev = a reversed view of reversed data (negative strides); str = every other column of a wider
+    buffer; T = (2D automata) each grid a transposed view."""
+    if not layout or layout == "C" or a.ndim < 2 or a.size == 0:
+        return a
+    if layout == "F":
+        return np.asfortranarray(a)
+    if layout == "rev":
+        sl = (slice(None),) + (slice(None, None, -1),) * (a.ndim - 1)
+        return np.ascontiguousarray(a[sl])[sl]
+    if layout == "str":
+        wide = np.zeros(a.shape[:-1] + (2 * a.shape[-1],), dtype=a.dtype)
+        wide[..., ::2] = a
+        return wide[..., ::2]
+    if layout == "T" and a.ndim == 3:
+        return np.swapaxes(np.ascontiguousarray(np.swapaxes(a, 1, 2)), 1, 2)
+    return a
 
 
 def scaled_rows(arr, c):
